@@ -11,6 +11,7 @@
 #include <tlx/algorithm/parallel_multiway_merge.hpp>
 
 #include <algorithm>
+#include <atomic>
 #include <climits>
 
 namespace {
@@ -26,15 +27,32 @@ struct E;
 E* g_out_base = nullptr;
 size_t g_out_cap = 0;
 
+// lifetime bookkeeping of the element type (it is not trivially copyable: every object knows its own
+// address from construction to destruction, so an assignment to, a copy from or a destruction of raw
+// storage that never held an object shows)
+std::atomic<uint64_t> g_e_bad_assign{0}, g_e_bad_source{0}, g_e_bad_destroy{0};
+std::atomic<int64_t> g_e_live{0};
+
 struct E {
     int key, seq, pos;
-    E() : key(-1), seq(-1), pos(-1) {}
-    E(int k, int s, int p) : key(k), seq(s), pos(p) {}
-    E(const E&) = default;
+    const E* self;
+    E() : key(-1), seq(-1), pos(-1), self(this) { g_e_live.fetch_add(1, std::memory_order_relaxed); }
+    E(int k, int s, int p) : key(k), seq(s), pos(p), self(this) { g_e_live.fetch_add(1, std::memory_order_relaxed); }
+    E(const E& o) : key(o.key), seq(o.seq), pos(o.pos), self(this) {
+        if (o.self != &o) g_e_bad_source.fetch_add(1, std::memory_order_relaxed);
+        g_e_live.fetch_add(1, std::memory_order_relaxed);
+    }
     E& operator=(const E& o) {
+        if (self != this) g_e_bad_assign.fetch_add(1, std::memory_order_relaxed);
+        if (o.self != &o) g_e_bad_source.fetch_add(1, std::memory_order_relaxed);
         key = o.key; seq = o.seq; pos = o.pos;
         if (this >= g_out_base && this < g_out_base + g_out_cap) sim::event(EV_ASSIGN, this - g_out_base);
         return *this;
+    }
+    ~E() {
+        if (self != this) g_e_bad_destroy.fetch_add(1, std::memory_order_relaxed);
+        self = nullptr;
+        g_e_live.fetch_sub(1, std::memory_order_relaxed);
     }
 };
 struct ByKey { bool operator()(const E& a, const E& b) const { return a.key < b.key; } };
@@ -77,6 +95,8 @@ void execute(const Workload& w, Result& res) {
     const bool sentinels = entry >= 4;
     const bool stable = entry == 1 || entry == 3 || entry == 5;
 
+    g_e_bad_assign = 0; g_e_bad_source = 0; g_e_bad_destroy = 0;
+    const int64_t e_live0 = g_e_live.load();
     std::vector<std::vector<E> > seqs;
     size_t total = 0;
     for (size_t s = 0; s < w.ops.size() && s < 64; ++s) {
@@ -124,6 +144,15 @@ void execute(const Workload& w, Result& res) {
     default: ret = tlx::stable_parallel_multiway_merge_sentinels(pairs.begin(), pairs.end(), out.begin(), dsize, ByKey(), mwma, mwmsa, threads); break;
     }
     g_out_base = nullptr; g_out_cap = 0;
+    // element lifetimes: the merge may create temporaries (samples, loser tree entries) but works on objects only
+    {
+        int64_t mine = int64_t(out.size()) + int64_t(ref.size());   // the harness's own: output, reference, inputs
+        for (auto& v : seqs) mine += int64_t(v.size());
+        if (g_e_bad_assign.load()) res.fail("pmerge_lifetime", "an element was assigned to storage that holds no object (" + std::to_string(g_e_bad_assign.load()) + " times)");
+        else if (g_e_bad_source.load()) res.fail("pmerge_lifetime", "an element was copied from storage that holds no object");
+        else if (g_e_bad_destroy.load()) res.fail("pmerge_lifetime", "storage that holds no object was destroyed as an element");
+        else if (g_e_live.load() - e_live0 != mine) res.fail("pmerge_lifetime", std::to_string(g_e_live.load() - e_live0 - mine) + " temporary elements created by the merge are still alive (or were destroyed twice) after it returned");
+    }
 
     static const char* en[] = {"base<unstable>", "base<stable>", "parallel_multiway_merge", "stable_parallel_multiway_merge",
                                "parallel_multiway_merge_sentinels", "stable_parallel_multiway_merge_sentinels"};
